@@ -60,12 +60,20 @@ class Core:
         self.a = None
         self.m = None
         self.dtype = None
+        self.vec = False
         self.kinds = []
+
+    def A(self, v):
+        x = arr(v, self.dtype)
+        if self.vec and x.size == 0:
+            x = x.reshape((0, 2))
+        return x
 
     # ---- construction -------------------------------------------------
     def init(self, op):
         rows, dtype, path = op["rows"], op["dtype"], op["path"]
         self.dtype = dtype
+        self.vec = bool(op.get("vec"))
         self.m = [arr(r, dtype) for r in rows]
         if path == "nested":
             self.a = ra.RaggedArray([list(arr(r, dtype).tolist()) for r in rows])
@@ -95,8 +103,8 @@ class Core:
         require(list(np.asarray(a.starts).tolist()) == starts, "starts disagree", got=a.starts, want=starts, **ctx)
         flat = np.concatenate(m)
         got_flat = a.flatten()
-        require(got_flat.shape == flat.shape and np.array_equal(got_flat.astype(flat.dtype), flat), "flat data disagree with model",
-                got=got_flat.tolist(), want=flat.tolist(), **ctx)
+        require(got_flat.shape == flat.ravel().shape and np.array_equal(got_flat.astype(flat.dtype), flat.ravel()),
+                "flat data disagree with model", got=got_flat.tolist(), want=flat.ravel().tolist(), **ctx)
         require(np.array_equal(np.asarray(a._data).astype(flat.dtype), flat), "_data disagrees with model", got=np.asarray(a._data).tolist(),
                 want=flat.tolist(), **ctx)
         for i in range(n):
@@ -111,12 +119,14 @@ class Core:
         for i in range(n):
             for j in range(len(m[i])):
                 e = np.asarray(a[i, j]).ravel()
-                require(e.size == 1 and e[0] == m[i][j], "element read disagrees", i=i, j=j, got=e.tolist(),
-                        want=m[i][j], **ctx)
+                w = np.asarray(m[i][j]).ravel()
+                require(e.size == w.size and np.array_equal(e.astype(flat.dtype), w), "element read disagrees", i=i, j=j,
+                        got=e.tolist(), want=w.tolist(), **ctx)
         require(a.size == flat.size, "size disagrees", got=a.size, want=flat.size, **ctx)
         shp = a.shape
         second = want_len[0] if len(set(want_len)) == 1 else None
-        require(shp[0] == n and (shp[1] == second), "shape disagrees", got=shp, want=(n, second), **ctx)
+        require(shp[0] == n and (shp[1] == second) and tuple(shp[2:]) == tuple(flat.shape[1:]), "shape disagrees",
+                got=shp, want=(n, second) + tuple(flat.shape[1:]), **ctx)
         # dtype is not among C06's observers (C05 checks it for reads): appending an equal-length RaggedArray built
         # from nested lists legitimately leaves an object-typed buffer holding the right values.
         require(a.max() == flat.max() and a.min() == flat.min(), "min/max disagree", **ctx)
@@ -174,7 +184,7 @@ class Core:
     def op_set_row(self, op):
         i = op["i"]
         v = arr(op["v"], self.dtype)
-        self.a[i] = v if op["as"] == "array" else (op["v"] if self.dtype == "int64" else [float(x) for x in op["v"]])
+        self.a[i] = v if op["as"] == "array" else v.tolist()
         self.m[i] = v.copy()
 
     def rows_of(self, sel):
@@ -203,7 +213,7 @@ class Core:
         i, s = op["i"], sl(op["sl"])
         tgt = self.m[i][s]
         v = op["v"]
-        val = v if not isinstance(v, list) else arr(v, self.dtype)
+        val = v if not isinstance(v, list) else self.A(v)
         self.a[i, s] = val
         self.m[i][s] = val
         return False
@@ -217,17 +227,17 @@ class Core:
         if op["form"] == "scalar":
             val = v
         elif op["form"] == "nested":
-            val = [list(arr(x, self.dtype).tolist()) for x in v if len(x) > 0]
+            val = [list(self.A(x).tolist()) for x in v if len(x) > 0]
         elif op["form"] == "ragged":
-            val = ra.RaggedArray([arr(x, self.dtype) for x in v if len(x) > 0])
+            val = ra.RaggedArray([self.A(x) for x in v if len(x) > 0])
         else:
-            val = np.concatenate([arr(x, self.dtype) for x in v]) if v else arr([], self.dtype)
+            val = np.concatenate([self.A(x) for x in v]) if v else self.A([])
         t = self.run_write(lambda: self.a.__setitem__((self.sel_obj(op["rows"]), s), val), empty)
         for k, r in enumerate(rows):
             if op["form"] == "scalar":
                 self.m[r][s] = v
             else:
-                self.m[r][s] = arr(v[k], self.dtype)
+                self.m[r][s] = self.A(v[k])
         return t
 
     def op_set_col(self, op):
@@ -305,7 +315,7 @@ class Core:
         if op["other"] == "scalar":
             return op["s"], [op["s"]] * len(self.m)
         rng = np.random.RandomState(op["seed"])           # seed drawn by Hypothesis
-        om = [arr(rng.randint(1, 5, size=len(r)), self.dtype) for r in self.m]
+        om = [arr(rng.randint(1, 5, size=r.shape), self.dtype) for r in self.m]
         return ra.RaggedArray([r.copy() for r in om]), om
 
     def op_iop(self, op):
@@ -383,12 +393,12 @@ class Core:
         require(res is not a and res is not o, "operator %s returned one of its operands" % name)
         require([int(x) for x in res.lengths] == [len(w) for w in want], "operator %s lost the row structure" % name,
                 got=res.lengths, want=[len(w) for w in want])
-        wf = np.concatenate(want)
+        wf = np.concatenate(want).ravel()
         rf = res.flatten()
         require(rf.shape == wf.shape and np.array_equal(rf.astype(wf.dtype), wf, equal_nan=True), "operator %s is not element-wise" % name,
                 got=rf.tolist(), want=wf.tolist(), gd=str(rf.dtype), wd=str(wf.dtype))
         for i, w in enumerate(want):
-            require(np.array_equal(np.asarray(res[i]).astype(wf.dtype), w, equal_nan=True),
+            require(np.asarray(res[i]).shape == w.shape and np.array_equal(np.asarray(res[i]).astype(wf.dtype), w, equal_nan=True),
                     "operator %s: row view of the result disagrees" % name, row=i)
         require(np.array_equal(a.flatten(), data_before), "operator %s altered its left operand" % name)
         require(not np.shares_memory(res._data, a._data), "operator %s result shares memory with its operand" % name)
@@ -414,6 +424,7 @@ def history_info(history):
     classes.append("init_path=" + init.get("path", "?"))
     classes.append("init_equal_lengths=%s" % (len(set(lens)) == 1))
     classes.append("dtype=" + init.get("dtype", "?"))
+    classes.append("vector_elements=%s" % bool(init.get("vec")))
     classes.append("steps=%d+" % (len(kinds) // 10 * 10))
     return Info(len(mut) >= 4 and len(set(mut)) >= 3, classes)
 
@@ -435,11 +446,16 @@ def init_op(draw):
     else:
         lens = [draw(st.integers(1, 5)) for _ in range(n)]
     dtype = draw(st.sampled_from(["int64", "float64"]))
+    vec = draw(st.integers(0, 4)) == 0        # one machine in five holds rows of 2-vectors
     rows = []
     for L in lens:
-        vals = draw(st.lists(INT_VALS, min_size=L, max_size=L))
-        rows.append([v / 2 for v in vals] if dtype == "float64" else vals)
-    return {"op": "init", "rows": rows, "dtype": dtype,
+        if vec:
+            vals = draw(st.lists(st.tuples(INT_VALS, INT_VALS).map(list), min_size=L, max_size=L))
+            rows.append([[x / 2 for x in v] for v in vals] if dtype == "float64" else vals)
+        else:
+            vals = draw(st.lists(INT_VALS, min_size=L, max_size=L))
+            rows.append([v / 2 for v in vals] if dtype == "float64" else vals)
+    return {"op": "init", "rows": rows, "dtype": dtype, "vec": vec,
             "path": draw(st.sampled_from(["nested", "arrays", "flat_nd", "flat_pyints", "flat_npints"]))}
 
 
@@ -468,7 +484,12 @@ def make_machine(hooks):
             s = INT_VALS if self.core.dtype == "int64" else INT_VALS.map(lambda v: v / 2)
             if n is None:
                 return data.draw(s)
+            if self.core.vec:
+                return data.draw(st.lists(st.tuples(s, s).map(list), min_size=n, max_size=n))
             return data.draw(st.lists(s, min_size=n, max_size=n))
+
+        def scalar_only(self):
+            return self.core.vec
 
         def alive(self):
             return not self.dead and self.core.m is not None
@@ -542,18 +563,25 @@ def make_machine(hooks):
             sel = self.row_sel(data)
             s = self.col_slice(data)
             rows = self.core.rows_of(sel)
-            form = data.draw(st.sampled_from(["scalar", "nested", "ragged", "flat"]))
+            # a flat (k, 2) value array for vector elements is ambiguous (the library treats any nested value as
+            # per-row lists), so the flat form is used for scalar elements only
+            form = data.draw(st.sampled_from(["scalar", "nested", "ragged", "flat"] if not self.core.vec
+                                             else ["scalar", "nested", "ragged"]))
             if form == "scalar":
                 v = self.val(data)
             else:
                 v = [self.val(data, len(self.core.m[r][sl(s)])) for r in rows]
                 if form in ("nested", "ragged") and all(len(x) == 0 for x in v):
-                    form = "flat"
+                    form = "flat" if not self.core.vec else "scalar"
+                    if form == "scalar":
+                        v = self.val(data)
             self.do({"op": "set_2d", "rows": sel, "sl": s, "form": form, "v": v})
 
         @precondition(lambda self: self.alive())
         @rule(data=st.data())
         def set_col(self, data):
+            if self.core.vec:
+                return
             sel = self.row_sel(data)
             rows = self.core.rows_of(sel)
             if not rows:
@@ -567,6 +595,8 @@ def make_machine(hooks):
         @precondition(lambda self: self.alive())
         @rule(data=st.data())
         def set_fancy(self, data):
+            if self.core.vec:
+                return
             m = self.core.m
             form = data.draw(st.sampled_from(["pairs", "row_int", "col_int"]))
             k = data.draw(st.integers(1, 4))
@@ -595,6 +625,8 @@ def make_machine(hooks):
         @precondition(lambda self: self.alive())
         @rule(data=st.data())
         def set_mask(self, data):
+            if self.core.vec:
+                return
             flat = np.concatenate(self.core.m)
             thr = data.draw(st.sampled_from(sorted(set(flat.tolist())) + [1000, -1000]))
             v = self.val(data) if data.draw(st.booleans()) else self.val(data, 4)
@@ -631,7 +663,7 @@ def make_machine(hooks):
             s = data.draw(st.integers(1, 4))
             if self.core.dtype == "float64":
                 s = float(s) if name != "pow" else 2.0
-            if name == "pow" and (np.concatenate(self.core.m) < 0).any() and self.core.dtype == "float64":
+            if name == "pow" and (np.concatenate(self.core.m) < 0).any():
                 s = 2.0
             self.do({"op": "binop", "name": name, "other": other, "s": s, "seed": data.draw(st.integers(0, 10 ** 6)),
                      "reflected": data.draw(st.booleans()) and name in ("add", "sub", "mul")})
@@ -639,6 +671,8 @@ def make_machine(hooks):
         @precondition(lambda self: self.alive())
         @rule(data=st.data())
         def bitop(self, data):
+            if self.core.vec:
+                return
             self.do({"op": "bitop", "name": data.draw(st.sampled_from(BITOPS + ["invert"])),
                      "thr": data.draw(st.integers(-5, 5)), "thr2": data.draw(st.integers(-5, 5))})
 
